@@ -1,0 +1,88 @@
+//go:build verif
+
+// Contracts for contract-based verification (/verif). Comment-only: with or without the
+// build tag "verif" this file adds nothing to the compiled package.
+
+package env
+
+// C16: mapUnion is the left-to-right overlay of its arguments (the last map that has a key wins).
+//@ spec rec ovHas(maps []map[string]string, n int, k string) bool = n > 0 && (has(maps[n - 1], k) || ovHas(maps, n - 1, k))
+//@ spec rec ovVal(maps []map[string]string, n int, k string) string = ite(n <= 0, "", ite(has(maps[n - 1], k), maps[n - 1][k], ovVal(maps, n - 1, k)))
+
+//@ func mapUnion
+//@   modifies nothing
+//@   ensures [fresh] r0 != nil && fresh(r0)
+//@   ensures [overlay] forall k string :: (has(r0, k) <==> old(ovHas(maps, len(maps), k))) && (has(r0, k) ==> r0[k] == old(ovVal(maps, len(maps), k)))
+//@   loop range maps: invariant [bounds] 0 <= rangeindex + 1 && rangeindex + 1 <= len(maps) && fresh(union) && union != nil
+//@   loop range maps: invariant [overlay] forall k string :: (has(union, k) <==> old(ovHas(maps, rangeindex + 1, k))) && (has(union, k) ==> union[k] == old(ovVal(maps, rangeindex + 1, k)))
+//@   loop range m: invariant [bounds] 0 <= rangeindex + 1 && rangeindex + 1 < len(maps) && m == maps[rangeindex + 1] && fresh(union) && union != nil
+//@   loop range m: invariant [keys] forall k string :: has(union, k) <==> (old(ovHas(maps, rangeindex + 1, k)) || visited[k])
+//@   loop range m: invariant [visited] forall k string :: visited[k] ==> has(m, k) && union[k] == m[k]
+//@   loop range m: invariant [rest] forall k string :: has(union, k) && !visited[k] ==> union[k] == old(ovVal(maps, rangeindex + 1, k))
+
+//@ func mapExclude
+//@   pureparam excludeCondition
+//@   modifies nothing
+//@   ensures [fresh] r0 != nil && fresh(r0)
+//@   ensures [filter] forall k string :: has(r0, k) <==> (has(m, k) && !fapply(excludeCondition, k))
+//@   ensures [values] forall k string :: has(r0, k) ==> r0[k] == m[k]
+//@   loop range m: invariant [fresh] fresh(res) && res != nil
+//@   loop range m: invariant [filter] forall k string :: has(res, k) <==> (visited[k] && !fapply(excludeCondition, k))
+//@   loop range m: invariant [visited] forall k string :: visited[k] ==> has(m, k)
+//@   loop range m: invariant [values] forall k string :: has(res, k) ==> res[k] == m[k]
+
+//@ func lookupEnv
+//@   modifies nothing
+//@   ensures [fresh] r0 != nil && fresh(r0)
+//@   loop range keys: invariant fresh(res) && res != nil
+
+//@ func extensionExcludedKeys
+//@   modifies nothing
+//@   ensures [exact] r0 != nil && fresh(r0) && (forall k string :: r0[k] <==> (k == "AWS_XRAY_CONTEXT_MISSING" || k == "_AWS_XRAY_DAEMON_ADDRESS" || k == "_AWS_XRAY_DAEMON_PORT" || k == "_LAMBDA_TELEMETRY_LOG_FD"))
+
+//@ func (*Environment).AgentExecEnv$1
+//@   pure
+//@   modifies nothing
+//@   ensures [predicate] r0 <==> (excludedKeys[key] || hasprefix(key, "_"))
+
+// The Environment's maps are allocated once by NewEnvironment and are distinct objects.
+//@ spec envWired(e *Environment) bool = e.Customer != nil && e.platform != nil && e.runtime != nil && e.platformUnreserved != nil && e.credentials != nil && e.platform != e.runtime && e.platform != e.credentials && e.platform != e.Customer && e.platform != e.platformUnreserved && e.runtime != e.credentials && e.runtime != e.Customer && e.runtime != e.platformUnreserved && e.credentials != e.Customer && e.credentials != e.platformUnreserved && e.Customer != e.platformUnreserved
+//@ typeinv Environment e
+//@   inv envWired(e)
+
+//@ spec excludedForAgents(k string) bool = k == "AWS_XRAY_CONTEXT_MISSING" || k == "_AWS_XRAY_DAEMON_ADDRESS" || k == "_AWS_XRAY_DAEMON_PORT" || k == "_LAMBDA_TELEMETRY_LOG_FD" || hasprefix(k, "_")
+
+// The runtime sees customer variables overlaid by unreserved platform defaults, credentials, runtime and platform variables.
+//@ func (*Environment).RuntimeExecEnv
+//@   modifies nothing
+//@   ensures [keys] forall k string :: has(r0, k) <==> (has(e.Customer, k) || has(e.platformUnreserved, k) || has(e.credentials, k) || has(e.runtime, k) || has(e.platform, k))
+//@   ensures [platform-wins] forall k string :: has(e.platform, k) ==> r0[k] == e.platform[k]
+//@   ensures [runtime-next] forall k string :: has(e.runtime, k) && !has(e.platform, k) ==> r0[k] == e.runtime[k]
+//@   ensures [credentials-next] forall k string :: has(e.credentials, k) && !has(e.runtime, k) && !has(e.platform, k) ==> r0[k] == e.credentials[k]
+//@   ensures [unreserved-next] forall k string :: has(e.platformUnreserved, k) && !has(e.credentials, k) && !has(e.runtime, k) && !has(e.platform, k) ==> r0[k] == e.platformUnreserved[k]
+//@   ensures [customer-passes-through] forall k string :: has(e.Customer, k) && !has(e.platformUnreserved, k) && !has(e.credentials, k) && !has(e.runtime, k) && !has(e.platform, k) ==> r0[k] == e.Customer[k]
+
+// Extensions see customer, credential and platform variables, never '_' names nor the X-Ray exclusions.
+//@ func (*Environment).AgentExecEnv
+//@   modifies nothing
+//@   ensures [keys] forall k string :: has(r0, k) <==> ((has(e.Customer, k) || has(e.credentials, k) || has(e.platform, k)) && !excludedForAgents(k))
+//@   ensures [platform-wins] forall k string :: has(r0, k) && has(e.platform, k) ==> r0[k] == e.platform[k]
+//@   ensures [credentials-next] forall k string :: has(r0, k) && has(e.credentials, k) && !has(e.platform, k) ==> r0[k] == e.credentials[k]
+//@   ensures [customer-passes-through] forall k string :: has(r0, k) && !has(e.credentials, k) && !has(e.platform, k) ==> r0[k] == e.Customer[k]
+//@   ensures [same-runtime-api] !excludedForAgents(runtimeAPIAddressKey) && (has(e.platform, runtimeAPIAddressKey) ==> r0[runtimeAPIAddressKey] == e.platform[runtimeAPIAddressKey])
+
+//@ func (*Environment).StoreRuntimeAPIEnvironmentVariable
+//@   modifies mapof(e.platform), e.runtimeAPISet
+//@   ensures [stored] has(e.platform, runtimeAPIAddressKey) && e.platform[runtimeAPIAddressKey] == runtimeAPIAddress && e.runtimeAPISet
+//@   ensures [others-unchanged] forall k string :: k != runtimeAPIAddressKey ==> (has(e.platform, k) == old(has(e.platform, k)) && e.platform[k] == old(e.platform[k]))
+//@ func (*Environment).SetHandler
+//@   modifies mapof(e.runtime)
+//@   ensures [stored] has(e.runtime, handlerEnvKey) && e.runtime[handlerEnvKey] == handler
+//@   ensures [others-unchanged] forall k string :: k != handlerEnvKey ==> (has(e.runtime, k) == old(has(e.runtime, k)) && e.runtime[k] == old(e.runtime[k]))
+
+//@ func (*Environment).mergeCustomerEnvironmentVariables
+//@   modifies e.Customer
+//@   ensures [overlay] forall k string :: has(e.Customer, k) <==> (old(has(e.Customer, k)) || has(envVars, k))
+//@   ensures [new-wins] forall k string :: has(envVars, k) ==> e.Customer[k] == envVars[k]
+//@   ensures [old-kept] forall k string :: !has(envVars, k) && old(has(e.Customer, k)) ==> e.Customer[k] == old(e.Customer[k])
+//@   ensures [still-wired] envWired(e)
